@@ -34,6 +34,16 @@ Check zero_budget_untouched : forall (A : SArith) (mulA mulAT : list (T (SA A)) 
   run mulA mulAT rows cols sv b x0 0 tol = Ok (o, x, g) -> x = x0.
 Print Assumptions zero_budget_untouched.
 
+(* whatever a solver returns (Ok or Err), x still has the length of the caller's x *)
+Theorem x_keeps_length : forall (A : SArith) (mulA mulAT : list (T (SA A)) -> res (list (T (SA A)))) rows cols
+    sv b x0 n tol o x g,
+  run mulA mulAT rows cols sv b x0 n tol = Ok (o, x, g) -> length x = length x0.
+Proof. intros A mulA mulAT rows cols sv b x0 n tol o x g H. exact (run_length mulA mulAT rows cols sv b x0 n tol o x g H). Qed.
+Check x_keeps_length : forall (A : SArith) (mulA mulAT : list (T (SA A)) -> res (list (T (SA A)))) rows cols
+    sv b x0 n tol o x g,
+  run mulA mulAT rows cols sv b x0 n tol = Ok (o, x, g) -> length x = length x0.
+Print Assumptions x_keeps_length.
+
 (* [passed b tol g]: norm2 (g_t g) / (||b||, 0 replaced by 1) evaluates to a value resid with
    resid <= tol (or resid < tol), g_t g being the vector the last convergence test looked at *)
 Theorem ok_passed_test : forall (A : SArith) (mulA mulAT : list (T (SA A)) -> res (list (T (SA A)))) rows cols
